@@ -5,11 +5,18 @@ import difflib, os, sys
 HERE = os.path.dirname(os.path.dirname(os.path.abspath(__file__)))
 pid, rule, name, key, file, old, new = sys.argv[1:8]
 note = sys.argv[8] if len(sys.argv) > 8 else ""
-old = old.encode().decode("unicode_escape"); new = new.encode().decode("unicode_escape")
+if not os.environ.get("MKWIT_RE"):
+    old = old.encode().decode("unicode_escape"); new = new.encode().decode("unicode_escape")
 src = open("/repo/src/" + file).read()
-if src.count(old) != 1 and not (os.environ.get("MKWIT_ALL") and src.count(old) > 1):
+if not os.environ.get("MKWIT_RE") and src.count(old) != 1 and not (os.environ.get("MKWIT_ALL") and src.count(old) > 1):
     sys.exit("OLD occurs %d times in %s" % (src.count(old), file))
-mod = src.replace(old, new)
+if os.environ.get("MKWIT_RE"):
+    import re
+    mod, nsub = re.subn(old, new, src)
+    if not nsub:
+        sys.exit("regex matches nothing in %s" % file)
+else:
+    mod = src.replace(old, new)
 def _lines(t):
     out = t.split("\n")
     return [l + "\n" for l in out[:-1]] + ([out[-1]] if out[-1] else [])
